@@ -261,7 +261,7 @@ class DULServiceProvider(threading.Thread):
         # type: () -> bool
         # There is something to read
         try:
-            data = self.dul_socket.recv(self.max_pdu_length)
+            data = self.dul_socket.recv(self.max_pdu_length or 65536)  # 0 means "no limit"
         except socket.error:
             self.event.append(fsm.Events.EVT_17)
             self.dul_socket.close()
